@@ -155,3 +155,32 @@ package geom
 //@   ensures [join_min] b2 != nil ==> b.Min.X == goMin(old(b.Min.X), old(b2.Min.X)) && b.Min.Y == goMin(old(b.Min.Y), old(b2.Min.Y))
 //@   ensures [join_max] b2 != nil ==> b.Max.X == goMax(old(b.Max.X), old(b2.Max.X)) && b.Max.Y == goMax(old(b.Max.Y), old(b2.Max.Y))
 //@   modifies *b
+
+//@ -- ------------------------------------------------------------ iterators
+//@ spec flatAt(pp []Path, n int, c int) Point decreases n = n <= 0 ? Point(0, 0) : (c >= sumLen(pp, n-1) ? pp[n-1][c - sumLen(pp, n-1)] : flatAt(pp, n-1, c))
+//@ lemma sumLen_mono(pp []Path, m int, n int)
+//@   prop C04
+//@   requires 0 <= m && m <= n && n <= len(pp)
+//@   ensures sumLen(pp, m) <= sumLen(pp, n)
+//@   induction n
+//@ lemma flatAt_stable(pp []Path, m int, n int, c int)
+//@   prop C04
+//@   requires 0 <= m && m <= n && n <= len(pp) && c < sumLen(pp, m)
+//@   ensures biteq(flatAt(pp, n, c), flatAt(pp, m, c))
+//@   induction n
+//@   using sumLen_mono
+
+//@ func (p Polygon) Points$1
+//@   prop C04
+//@   mode fp
+//@   requires [wf] 0 <= *j && *j <= len(*p) && 0 <= *i && (*j < len(*p) ==> *i <= len((*p)[*j]))
+//@   requires [more] sumLen(*p, *j) + *i < sumLen(*p, len(*p))
+//@   ensures [next] biteq(result, flatAt(*p, len(*p), old(sumLen(*p, *j) + *i)))
+//@   using flatAt_stable(*p, *j+1, len(*p), old(sumLen(*p, *j) + *i))
+//@   ensures [adv] sumLen(*p, *j) + *i == old(sumLen(*p, *j) + *i) + 1
+//@   ensures [wf] 0 <= *j && *j < len(*p) && 0 <= *i && *i <= len((*p)[*j])
+//@   modifies *i, *j
+//@   loop 1 `for i == len(p[j])`
+//@     invariant [pos] 0 <= *j && *j < len(*p) && 0 <= *i && *i <= len((*p)[*j]) && sumLen(*p, *j) + *i == old(sumLen(*p, *j) + *i)
+//@     using sumLen_mono(*p, *j+1, len(*p))
+//@     decreases len(*p) - *j
